@@ -171,8 +171,15 @@ func verifC04Step(cfg vStoreCfg, symbolicIds bool) {
 	cfg.fkToDept = true
 	cfg.nickNullable = true
 	nEmp := 2
+	twoSteps := false
 	if verifrt.Tier() == 1 && !symbolicIds {
-		nEmp = 3
+		// thorough: either three referrers and one operation, or two referrers
+		// and a history of two operations
+		if verifrt.Choose("mode", 2) == 0 {
+			nEmp = 3
+		} else {
+			twoSteps = true
+		}
 	}
 	deptIds := []string{"x", "xy"}
 	if symbolicIds {
@@ -187,7 +194,23 @@ func verifC04Step(cfg vStoreCfg, symbolicIds bool) {
 	sp := verifSymSpecFk(cfg, deptIds, nEmp)
 	env.buildFk(sp, cfg)
 	env.checkStateFk(sp, cfg, "C04 after build")
+	// thorough (fixed ids): a second operation from the state the first one left
+	steps := 1
+	if twoSteps {
+		steps = 2
+	}
+	for step := 0; step < steps; step++ {
+		next, changed := verifC04One(env, cfg, sp, deptIds, nEmp)
+		if !changed {
+			return
+		}
+		sp = next
+	}
+}
 
+// verifC04One performs one symbolic operation from state sp and checks the
+// result; it returns the successor state (false if the operation was rejected).
+func verifC04One(env *vEnv, cfg vStoreCfg, sp *vSpecFk, deptIds []string, nEmp int) (*vSpecFk, bool) {
 	next := &vSpecFk{deptIds: deptIds, dept: append([]bool{}, sp.dept...), emp: append([]bool{}, sp.emp...), boss: append([]int{}, sp.boss...), nullable: sp.nullable}
 	op := verifrt.Choose("op", 5)
 	var err error
@@ -286,9 +309,10 @@ func verifC04Step(cfg vStoreCfg, symbolicIds bool) {
 			verifrt.Assert(IsErrNotFoundErr(err), "C04 missing entity / missing target reported as not found")
 		}
 		env.checkStateFk(sp, cfg, "C04 after a rejected operation (unchanged)")
-		return
+		return sp, false
 	}
 	env.checkStateFk(next, cfg, "C04 after the operation")
+	return next, true
 }
 
 func VerifC04_FkIndexNullable()      { verifC04Step(vStoreCfg{fk: vFkIndexNullable}, false) }
